@@ -501,6 +501,11 @@ fn run_thin<H: Shape, T: Shape>(c: &Case, o: &mut Obs) {
         "slice" => ThinArc::from_header_and_slice(H::make(seed), &it),
         "iter" => ThinArc::from_header_and_iter(H::make(seed), it.iter().copied()),
         "fat_slice" => Arc::into_thin(Arc::from_header_and_slice(HeaderWithLength::new(H::make(seed), len), &it)),
+        // a fat Arc whose RECORDED length disagrees with its slice length: `into_thin` must refuse with a panic
+        // (reported by the main loop as st=panic:length-mismatch, with `leaked=` if the refused Arc was not released)
+        "fat_bad" => Arc::into_thin(Arc::from_header_and_slice(HeaderWithLength::new(H::make(seed), len + 1), &it)),
+        "fat_bad_short" if len > 0 => Arc::into_thin(Arc::from_header_and_slice(HeaderWithLength::new(H::make(seed), len - 1), &it)),
+        "fat_bad_short" => Arc::into_thin(Arc::from_header_and_slice(HeaderWithLength::new(H::make(seed), 7), &it)),
         _ => { set_recording(false); return bad(o, "ctor"); }
     };
     drop(it);
